@@ -22,7 +22,8 @@ CLAUSES = {
     "61": "C06: a send completed successfully without the matching acknowledgement (type and id) of the oldest "
           "outstanding packet having arrived",
     "62": "C06: an acknowledgement that does not answer the oldest outstanding send did not end the connection",
-    "63": "C06: two outstanding packets carry the same packet id, or id 0",
+    "63": "C06/C14: two outstanding exchanges carry the same packet id (an id is owned until its final "
+          "acknowledgement: PUBCOMP for QoS 2), or id 0",
     "64": "C06/C14: the peer acknowledged correctly and in order (a PUBREC moves its exchange behind everything sent "
           "before the PUBCOMP is due) but the connection was closed",
     "65": "C06: a mismatching acknowledgement completed a send successfully",
@@ -33,6 +34,8 @@ CLAUSES = {
     "82": "C06/C08: a send returned PacketIdInUse / an encoder error / StreamingCancelled but its packet was written",
     "131": "C13: at quiescence a task is still parked although the window is open, back-pressure is off and "
            "nothing is outstanding (not one of the recorded findings)",
+    "135": "C13: a streamed chunk send started with back-pressure off, on an open connection, after the task's PUBLISH "
+           "header was written, is left pending (only write back-pressure may pause the chunks of a message)",
     "132": "C13: a streamed chunk send that was parked on write back-pressure is still pending although back-pressure "
            "has been lifted and the send was polled again",
     "141": "C14: releasing / dropping a QoS 2 receipt did not write exactly one PUBREL with its own id",
@@ -148,7 +151,7 @@ def track(ver, case, obs, want):
                         # the cap/wrb of the previous observation applies unless this very op changed them
                         if code not in (8, 9):
                             return "0,51,%d" % i
-                if 6 in want and (pid == 0 or any(e[0] == pid for e in out)):
+                if (6 in want or 14 in want) and (pid == 0 or any(e[0] == pid for e in out)):
                     return "0,63,%d" % i
                 exp = {PUB1: PUBACK, PUB2: PUBREC, SUB: SUBACK, UNSUB: UNSUBACK}[tag]
                 out.append([pid, exp, t])
@@ -241,6 +244,22 @@ def track(ver, case, obs, want):
                 i -= 1
             if lifted is not None:
                 return "0,132,%d" % j
+        # a chunk send STARTED (not pending before the operation) while back-pressure is off before and after the
+        # operation, on an open connection, after the task's own PUBLISH header has been written, has nothing to
+        # wait for: the send window concerns whole messages, not the chunks of a message that is already on the wire
+        for j in range(1, len(ops)):
+            op = ops[j]
+            if not op or op[0] != 13 or len(op) < 2 or heads[j] is None or heads[j - 1] is None:
+                continue
+            key = 100 + op[1]
+            if heads[j][1].get(key) != 1 or heads[j - 1][1].get(key) == 1:
+                continue
+            if heads[j][0][3] or heads[j - 1][0][3] or not heads[j][0][7] or not heads[j - 1][0][7]:
+                continue
+            if any(ops[k] and ops[k][0] in (1, 2) and len(ops[k]) > 1 and ops[k][1] == op[1]
+                   and heads[k] is not None and any(tag in (PUB1, PUB2) for (tag, _) in heads[k][2])
+                   for k in range(j)):
+                return "0,135,%d" % j
     if 7 in want and not prev_open:
         polled, pend = G.idle_suffix(case, obs)
         if pend and set(pend) <= polled:
